@@ -121,7 +121,7 @@ def step (fl : Flags) (r : Repo) (now : Time) : Op → Repo × Out
           | none => { t with state := .done, doneAt := some (normalize now) }
           | some msg => { t with state := .err, err := msg, doneAt := some (normalize now) }), .ok)
   | .find q offset limit =>
-    (r, .tasks (findLoop (q.normalize fl.normDeadline).matches r.tasks offset limit))
+    (r, .tasks (findLoop (q.normalize fl.normDeadline).matches (byCreated r.tasks) offset limit))
   | .next =>
     match r.getNext with
     | none => (r, .err .exhausted)
